@@ -564,9 +564,36 @@ pub fn inputs_c16(r: &mut Rng, n: usize, _tier: &str, out: &mut dyn Write) {
 
 pub fn inputs_c20(r: &mut Rng, n: usize, _tier: &str, out: &mut dyn Write) {
     const W: i128 = 7 * DAY;
+    const ALL9: [&str; 9] = ["TAI", "TT", "UTC", "GPST", "GST", "BDT", "QZSST", "ET", "TDB"];
     for _ in 0..n {
         let ts = *r.pick(&NONDYN);
-        match r.below(10) {
+        match r.below(13) {
+            10 | 11 | 12 => {
+                // (year, day of year) -> epoch -> (year, day of year), years 0001-9999, all nine scales
+                let y = match r.below(4) {
+                    0 => *r.pick(&[1i64, 4, 100, 400, 1582, 1899, 1900, 1901, 1972, 1980, 1999, 2000, 2006, 2016, 2017, 2100, 9999]),
+                    _ => r.range_i64(1, 9999),
+                };
+                let leap = (y % 4 == 0 && y % 100 != 0) || y % 400 == 0;
+                let ndays = if leap { 366 } else { 365 };
+                let whole = match r.below(5) {
+                    0 => 1,
+                    1 => ndays,
+                    2 => *r.pick(&[59i64, 60, 61, 365]).min(&ndays),
+                    _ => r.range_i64(1, ndays),
+                };
+                let doy: f64 = match r.below(6) {
+                    0 => whole as f64,
+                    1 => whole as f64 + 0.5,
+                    2 => whole as f64 + (DAY - 1) as f64 / DAY as f64, // last nanosecond of the day (rounded)
+                    3 => whole as f64 + r.below(86_400) as f64 / 86_400.0,
+                    4 => f64::from_bits((whole as f64).to_bits() + r.below(3)),
+                    _ => whole as f64 + (r.next() >> 11) as f64 / (1u64 << 53) as f64,
+                };
+                let ts9 = *r.pick(&ALL9);
+                let op = *r.pick(&["from_doy", "doy_rt"]);
+                writeln!(out, "{} {} {} {}", op, y, f2s(doy), ts9).unwrap()
+            }
             0 | 1 => {
                 let week: u64 = match r.below(5) {
                     0 => r.below(5000),
@@ -664,6 +691,12 @@ pub fn exec(op: &str, a: &[&str]) -> Option<String> {
         "eadd" => oke(s2e(a[0]) + s2d(a[1])),
         "esub" => oke(s2e(a[0]) - s2d(a[1])),
         "ediff" => okd(s2e(a[0]) - s2e(a[1])),
+        "from_doy" => oke(Epoch::from_day_of_year(a[0].parse().unwrap(), s2f(a[1]), s2ts(a[2]))),
+        "doy_rt" => {
+            let e = Epoch::from_day_of_year(a[0].parse().unwrap(), s2f(a[1]), s2ts(a[2]));
+            let (y, d) = e.year_days_of_year();
+            Some(format!("ok {} {}", y, f2s(d)))
+        }
         "ediff9" => {
             let (x, y) = (s2e(a[0]), s2e(a[1]));
             Some(format!("ok {} {}", d2s(x - y), e2s(y.to_time_scale(x.time_scale))))
